@@ -1,18 +1,18 @@
 CONSTANTS
-  TTLs <- T13
-  Horizon = 6
-  MaxChanges = 2
-  MaxQueries = 4
+  TTLs <- TLong
+  Horizon = 110000
+  MaxChanges = 1
+  MaxQueries = 3
   SignedSet <- Bools
   ChildSet <- ChildLong
-  ChildTTLs <- TTLBoth
+  ChildTTLs <- TTLDay
   DeepSet <- OnlyF
   ValDelays <- NoDelay
   FloorWins = FALSE
   SelfRefReanchors = FALSE
   Ceil = 43200
-  Jumps <- NoJumps
-  RealTime = TRUE
+  Jumps <- JLong
+  RealTime = FALSE
   CeilOnCut = TRUE
   CeilOnStore = TRUE
 INIT Init
